@@ -41,6 +41,8 @@ pub fn env_setting(kind: &str, wd: &Path) -> (Option<String>, &'static str) {
         "abs" => (Some(wd.join("out").to_string_lossy().into_owned()), "out"),
         "dots" => (Some("x/../out".into()), "out"),
         "trailing" => (Some("out/".into()), "out"),
+        // through a symbolic link: `lnk` -> `real` (created by `World::setup`)
+        "link" => (Some("lnk/out".into()), "lnk/out"),
         other => panic!("unknown env kind {other}"),
     }
 }
@@ -75,6 +77,10 @@ impl World<'_> {
         std::env::set_current_dir(&wd).unwrap();
         std::fs::create_dir_all(wd.join("x")).unwrap();
         let (env, d) = env_setting(self.cfg.env, &wd);
+        if self.cfg.env == "link" {
+            std::fs::create_dir_all(wd.join("real")).unwrap();
+            std::os::unix::fs::symlink("real", wd.join("lnk")).unwrap();
+        }
         match env {
             Some(v) => std::env::set_var("TS_RS_EXPORT_DIR", v),
             None => std::env::remove_var("TS_RS_EXPORT_DIR"),
@@ -223,7 +229,7 @@ pub fn replay(args: &[String]) {
             std::env::set_current_dir(&wd0).unwrap();
             std::env::remove_var("TS_RS_EXPORT_DIR");
             let singles = universe_singles(&uni).expect("single-type outputs");
-            let envs = ["unset", "rel", "dotrel", "abs", "dots", "trailing"];
+            let envs = ["unset", "rel", "dotrel", "abs", "dots", "trailing", "link"];
             let inits = ["empty", "stale", "previous"];
             let env = envs.iter().copied().find(|e| Some(*e) == r["env"].as_str()).expect("env");
             let init = inits.iter().copied().find(|e| Some(*e) == r["init"].as_str()).expect("init");
@@ -293,7 +299,7 @@ fn diff_trees(got: &Tree, exp: &Tree) -> Value {
 
 pub fn run(args: &[String]) {
     let depth: usize = arg_value(args, "--depth").map_or(3, |s| s.parse().unwrap());
-    let envs: Vec<&'static str> = vec!["unset", "rel", "dotrel", "abs", "dots", "trailing"];
+    let envs: Vec<&'static str> = vec!["unset", "rel", "dotrel", "abs", "dots", "trailing", "link"];
     let inits: Vec<&'static str> = vec!["empty", "stale", "previous"];
     let slice = arg_value(args, "--slice").map_or(Slice { i: 0, n: 1 }, |s| Slice::parse(&s));
     let all_spellings = args.iter().any(|a| a == "--all-spellings");
@@ -451,6 +457,9 @@ fn bfs_one(w: &World, depth: usize, max_states: usize, scratch: &mut Scratch, re
 enum Fault {
     /// the target file path of universe type `t` is a directory
     TargetIsDir(usize),
+    /// the target file of `t` exists already (a type sharing the file was exported into it earlier in
+    /// the history, `t` itself was not) and is replaced by a directory; removal puts the file back
+    TargetReplacedByDir(usize),
     /// the path component `comp` (relative to wd) is a regular file
     ParentIsFile(String),
     /// the step is replaced by an export of a non-exportable root
@@ -534,6 +543,9 @@ pub fn run_faults(args: &[String]) {
                 let mut faults: Vec<Fault> = vec![];
                 for &t in &step_model {
                     let target = dd.join(uni[t].loc);
+                    if target.is_file() && !model.contains(&t) {
+                        faults.push(Fault::TargetReplacedByDir(t));
+                    }
                     if !target.exists() {
                         faults.push(Fault::TargetIsDir(t));
                         // every missing ancestor strictly below wd
@@ -574,12 +586,14 @@ pub fn run_faults(args: &[String]) {
                     let hd: Vec<String> = hist.iter().map(|&b| w.act_desc(b, &wd, d)).collect();
                     let fkind = match &fault {
                         Fault::TargetIsDir(_) => "target-is-directory",
+                        Fault::TargetReplacedByDir(_) => "shared-target-replaced-by-directory",
                         Fault::ParentIsFile(_) => "parent-is-regular-file",
                         Fault::NotExportable(..) => "root-not-exportable",
                         Fault::DotDot(0) => "dotdot-above-root/export_all",
                         Fault::DotDot(1) => "dotdot-above-root/export_all_to",
                         Fault::DotDot(_) => "dotdot-above-root/export",
                     };
+                    rep.count(&format!("faults.{fkind}"), 1);
                     let entry = entry_mix(&hist[fi..=fi])[0];
                     let class = |check: &str| json!({"check": check, "fault": fkind, "entry": entry});
                     let detail = |extra: Value| json!({"env": env, "history": hd, "fault_before_step": fi, "fault": format!("{fault:?}"), "info": extra});
@@ -587,7 +601,16 @@ pub fn run_faults(args: &[String]) {
                     let before_wd = snapshot(&wd);
                     let mut obstacle: Option<PathBuf> = None;
                     let mut replaced = false;
+                    let mut put_back: Option<Vec<u8>> = None;
                     let r = match &fault {
+                        Fault::TargetReplacedByDir(t) => {
+                            let p = dd.join(uni[*t].loc);
+                            put_back = Some(std::fs::read(&p).unwrap());
+                            std::fs::remove_file(&p).unwrap();
+                            std::fs::create_dir(&p).unwrap();
+                            obstacle = Some(p);
+                            w.apply(hist[fi], &wd, d)
+                        }
                         Fault::TargetIsDir(t) => {
                             let p = dd.join(uni[*t].loc);
                             std::fs::create_dir_all(&p).unwrap();
@@ -676,6 +699,17 @@ pub fn run_faults(args: &[String]) {
                             break;
                         }
                     }
+                    // ---- remove the obstacle (a replaced file comes back as it was)
+                    if let Some(o) = &obstacle {
+                        if o.is_dir() {
+                            let _ = std::fs::remove_dir_all(o);
+                        } else {
+                            let _ = std::fs::remove_file(o);
+                        }
+                        if let Some(bytes) = &put_back {
+                            std::fs::write(o, bytes).unwrap();
+                        }
+                    }
                     // (3) registry names only files that exist and hold the declaration
                     if hooks::registry_is_poisoned() {
                         rep.violation(class("registry-lock-poisoned"), detail(json!({})));
@@ -693,14 +727,7 @@ pub fn run_faults(args: &[String]) {
                             }
                         }
                     }
-                    // ---- remove the obstacle, retry, complete
-                    if let Some(o) = &obstacle {
-                        if o.is_dir() {
-                            let _ = std::fs::remove_dir_all(o);
-                        } else {
-                            let _ = std::fs::remove_file(o);
-                        }
-                    }
+                    // ---- retry, complete
                     let mut completion_err = None;
                     for &b in &hist[fi..] {
                         rep.transitions += 1;
